@@ -154,8 +154,9 @@ PROPS = {
                       {"name": "h_res", "quick": 1200, "thorough": 15000},
                       {"name": "h_value", "quick": 250, "thorough": 4000},
                       {"name": "h_alg", "quick": 250, "thorough": 4000},
-                      {"name": "h_vialg", "quick": 1500, "thorough": 20000}],
-        "select": lambda t: t[1] in ("refs", "div", "gcd", "res", "vil", "via") or _dest_of(t) in ("p", "a", "b", "c", "s"),
+                      {"name": "h_vialg", "quick": 1500, "thorough": 20000},
+                      {"name": "h_infer", "quick": 1500, "thorough": 20000}],
+        "select": lambda t: t[1] in ("refs", "div", "gcd", "res", "vil", "via") or (t[1] == "inf" and t[2] == "fmout") or _dest_of(t) in ("p", "a", "b", "c", "s"),
         "nontrivial": lambda t, r: True,
         "viol_filter": _c19_viol_filter,
         "rule": "(1) reference-count histories (create/attach/detach/destroy of rings and contexts, external polynomials, vectors, "
@@ -294,7 +295,7 @@ PROPS = {
         "level": "proof",
         "lean_targets": ["LP.Props.C16"],
         "harnesses": [{"name": "h_infer", "quick": 1500, "thorough": 40000}],
-        "select": lambda t: t[1] == "inf",
+        "select": lambda t: t[1] == "inf" and t[2] != "fmout",      # the state of the output object is C19's business
         "nontrivial": lambda t, r: not (len(r) >= 1 and r[0] == "0"),
         "rule": "bounds: sums of univariate quadratics a_k x_k^2 + b_k x_k over 1-4 distinct variables plus a constant, coefficients of "
                 "either sign (8% mixed signs), optional cross / cubic terms, the whole polynomial negated in 35%, all six conditions, "
